@@ -67,6 +67,9 @@ struct Op {
     pad: usize,
     /// after the call: give helper threads `pause` ms of real time, interleaved with scheduler rounds
     pause: usize,
+    /// slow deserializer: the deserializer thread of this (streamed) item waits at a gate; the receiver cancels its
+    /// `recv` once it is left waiting for space in the queue towards that thread, opens the gate and receives again
+    gate: bool,
 }
 
 #[derive(Clone, Debug)]
@@ -128,7 +131,7 @@ impl Case {
         )];
         for o in &self.ops {
             v.push(format!(
-                "op {} tag={} len={} halves={} serfail={} defail={} cancel={} await={} pause={} pad={}",
+                "op {} tag={} len={} halves={} serfail={} defail={} cancel={} await={} pause={} pad={} gate={}",
                 o.sender,
                 o.tag,
                 o.len,
@@ -138,7 +141,8 @@ impl Case {
                 show_opt(o.cancel),
                 o.wait as u8,
                 o.pause,
-                o.pad
+                o.pad,
+                o.gate as u8
             ));
         }
         v.push("end".into());
@@ -191,6 +195,7 @@ impl Case {
                         wait: m.get("await").map(|s| s == "1").unwrap_or(false),
                         pause: m.get("pause").and_then(|s| s.parse().ok()).unwrap_or(0),
                         pad: m.get("pad").and_then(|s| s.parse().ok()).unwrap_or(0),
+                        gate: m.get("gate").map(|s| s == "1").unwrap_or(false),
                     });
                 }
             } else if l == "end" {
@@ -459,6 +464,33 @@ impl Rx {
         }
     }
 
+    /// `recv` that is dropped once it has been left pending for a while with the deserializer thread waiting at
+    /// the gate (queue towards that thread full): `Got::Cancelled`
+    async fn recv_gated(&mut self) -> Got {
+        const ROUNDS: usize = 400;
+        match self {
+            Rx::Base(rx) => match CancelWhen::new(rx.recv(), de_blocked, ROUNDS).await {
+                None => Got::Cancelled,
+                Some(Ok(Some(Wire::It(it)))) => Got::Value(it),
+                Some(Ok(Some(_))) => Got::Err("unexpected-variant".into(), false),
+                Some(Ok(None)) => Got::Eos,
+                Some(Err(e)) => Got::Err(base_recv_kind(&e).into(), e.is_final()),
+            },
+            Rx::Lr(rx) => match CancelWhen::new(rx.recv(), de_blocked, ROUNDS).await {
+                None => Got::Cancelled,
+                Some(Ok(Some(it))) => Got::Value(it),
+                Some(Ok(None)) => Got::Eos,
+                Some(Err(e)) => Got::Err(lr_recv_kind(&e).into(), e.is_final()),
+            },
+            Rx::Mpsc(rx) => match CancelWhen::new(rx.recv(), de_blocked, ROUNDS).await {
+                None => Got::Cancelled,
+                Some(Ok(Some(it))) => Got::Value(it),
+                Some(Ok(None)) => Got::Eos,
+                Some(Err(e)) => Got::Err(mpsc_recv_kind(&e), e.is_final()),
+            },
+        }
+    }
+
     async fn close(&mut self) {
         match self {
             Rx::Base(rx) => rx.close().await,
@@ -473,6 +505,7 @@ impl Rx {
 async fn receiver_script(mut rx: Rx, case: Rc<Case>, conn_kill: Option<Rc<dyn Fn()>>) -> bool {
     let mut n = 0usize;
     let mut cancel_budget = case.rcancel;
+    let mut gate_closed = case.ops.iter().any(|o| o.gate);
     loop {
         if (case.event == "close") && n == case.at {
             rx.close().await;
@@ -481,6 +514,7 @@ async fn receiver_script(mut rx: Rx, case: Rc<Case>, conn_kill: Option<Rc<dyn Fn
         if case.event == "droprx" && n == case.at {
             tr("rdrop".into());
             drop(rx);
+            open_de_gate();
             return false;
         }
         if case.event == "connfail" && n == case.at {
@@ -493,9 +527,20 @@ async fn receiver_script(mut rx: Rx, case: Rc<Case>, conn_kill: Option<Rc<dyn Fn
             tokio::task::yield_now().await;
         }
         let c = cancel_budget.take();
-        match rx.recv(c).await {
+        let got = if gate_closed { rx.recv_gated().await } else { rx.recv(c).await };
+        if gate_closed && !matches!(got, Got::Cancelled) && (de_blocked() || matches!(got, Got::Eos | Got::Err(_, true))) {
+            // the gated item was abandoned by its sender (its deserializer thread is still waiting) or the stream
+            // is over: release the thread, a blocked helper thread would inhibit the paused clock
+            gate_closed = false;
+            open_de_gate();
+        }
+        match got {
             Got::Cancelled => {
                 tr("recvcancel".into());
+                if gate_closed {
+                    gate_closed = false;
+                    open_de_gate();
+                }
                 continue;
             }
             Got::Value(it) => {
@@ -623,7 +668,7 @@ async fn run_stream_case(case: Rc<Case>) {
         // thread of a dangling streamed item would keep the paused clock from advancing)
         let mut k = 0u32;
         while !stopped && k < 300 {
-            let probe = Op { sender: 0, tag: 800_000 + k, len: 1, halves: 0, ser_fail: None, de_fail: None, cancel: None, wait: false, pause: 0, pad: 0 };
+            let probe = Op { sender: 0, tag: 800_000 + k, len: 1, halves: 0, ser_fail: None, de_fail: None, cancel: None, wait: false, pause: 0, pad: 0, gate: false };
             let bt = build(&probe, wrap, &mut rng);
             let res = tx.send(bt.item, None).await;
             tr(format!("send 0 {} res={}", bt.line, res));
@@ -645,7 +690,7 @@ async fn run_stream_case(case: Rc<Case>) {
         }
         let st = tx.state_line().await;
         tr(format!("state 0 {st} closedfut={}", closed_task.as_ref().map(|t| t.is_finished() as u8).unwrap_or(2)));
-        let probe = Op { sender: 0, tag: 900_000, len: 1, halves: 0, ser_fail: None, de_fail: None, cancel: None, wait: false, pause: 0, pad: 0 };
+        let probe = Op { sender: 0, tag: 900_000, len: 1, halves: 0, ser_fail: None, de_fail: None, cancel: None, wait: false, pause: 0, pad: 0, gate: false };
         let bt = build(&probe, wrap, &mut rng);
         let res = tx.send(bt.item, None).await;
         tr(format!("send 0 {} res={}", bt.line, res));
@@ -820,7 +865,7 @@ async fn run_mpsc_case(case: Rc<Case>) {
                 // keep sending probe items until this sender learns of the event (no clock involved)
                 let mut k = 0u32;
                 while !stopped && k < 300 {
-                    let probe = Op { sender: i, tag: 800_000 + 1000 * i as u32 + k, len: 1, halves: 0, ser_fail: None, de_fail: None, cancel: None, wait: false, pause: 0, pad: 0 };
+                    let probe = Op { sender: i, tag: 800_000 + 1000 * i as u32 + k, len: 1, halves: 0, ser_fail: None, de_fail: None, cancel: None, wait: false, pause: 0, pad: 0, gate: false };
                     let bt = build(&probe, Wrap::Mpsc, &mut rng.borrow_mut());
                     match tx.send(bt.item).await {
                         Ok(h) => {
@@ -854,7 +899,7 @@ async fn run_mpsc_case(case: Rc<Case>) {
                     reason(tx.closed_reason()),
                     watcher.is_finished() as u8
                 ));
-                let probe = Op { sender: i, tag: 900_000 + i as u32, len: 1, halves: 0, ser_fail: None, de_fail: None, cancel: None, wait: false, pause: 0, pad: 0 };
+                let probe = Op { sender: i, tag: 900_000 + i as u32, len: 1, halves: 0, ser_fail: None, de_fail: None, cancel: None, wait: false, pause: 0, pad: 0, gate: false };
                 let bt = build(&probe, Wrap::Mpsc, &mut rng.borrow_mut());
                 match tx.send(bt.item).await {
                     Ok(h) => {
@@ -1157,6 +1202,9 @@ async fn run_bin_case(case: Rc<Case>) {
 
 fn run_case(case: Case) -> Vec<String> {
     clear_fails();
+    if let Some(o) = case.ops.iter().find(|o| o.gate) {
+        set_de_gate(Some(o.tag));
+    }
     let start = verif_harness::trace::len();
     for l in case.spec_lines() {
         tr(format!("spec {l}"));
@@ -1177,6 +1225,7 @@ fn run_case(case: Case) -> Vec<String> {
         });
         rt.shutdown_timeout(Duration::from_millis(200));
     }));
+    open_de_gate();
     if res.is_err() {
         tr(format!("panicked {name}"));
         tr(format!("end {name}"));
@@ -1252,7 +1301,7 @@ fn gen_ops(r: &mut Rng, n: usize, nsenders: usize, limits: &[usize], overhead: u
         } else {
             None
         };
-        ops.push(Op { sender, tag: tag0 + k as u32, len, halves, ser_fail, de_fail, cancel, wait: r.chance(1, 4), pause: if r.chance(1, 8) { 1 } else { 0 }, pad: 0 });
+        ops.push(Op { sender, tag: tag0 + k as u32, len, halves, ser_fail, de_fail, cancel, wait: r.chance(1, 4), pause: if r.chance(1, 8) { 1 } else { 0 }, pad: 0, gate: false });
     }
     ops
 }
@@ -1329,7 +1378,7 @@ fn gen_case(g: &str, r: &mut Rng, i: u64, stats: &mut HashMap<String, u64>) -> C
         _ => {
             c.topo = r.below(2) as usize;
             c.ops = (0..n)
-                .map(|k| Op { sender: 0, tag: 1 + k as u32, len: boundary_len(r, &limits, 4), halves: 0, ser_fail: None, de_fail: None, cancel: None, wait: false, pause: 0, pad: 0 })
+                .map(|k| Op { sender: 0, tag: 1 + k as u32, len: boundary_len(r, &limits, 4), halves: 0, ser_fail: None, de_fail: None, cancel: None, wait: false, pause: 0, pad: 0, gate: false })
                 .collect();
         }
     }
@@ -1351,6 +1400,26 @@ fn gen_case(g: &str, r: &mut Rng, i: u64, stats: &mut HashMap<String, u64>) -> C
         }
         c.rcancel = None;
         stat(stats, &format!("event_{ev}"));
+    } else if matches!(kind, "base" | "lr") && r.chance(1, 4) {
+        // slow deserializer: one plain item becomes a streamed item of more than 32 chunks whose deserializer
+        // thread waits at the gate; the receiver cancels its recv when the queue towards that thread is full
+        let plain: Vec<usize> = (0..c.ops.len())
+            .filter(|&k| {
+                let o = &c.ops[k];
+                o.ser_fail.is_none() && o.de_fail.is_none() && o.cancel.is_none() && o.halves == 0 && o.pad == 0
+            })
+            .collect();
+        if !plain.is_empty() {
+            let k = *r.pick(&plain);
+            let chunk = c.cfga.0.max(c.cfgb.0) as usize;
+            c.ops[k].len = chunk * r.range(34, 60) as usize + r.below(chunk as u64) as usize;
+            c.ops[k].gate = true;
+            c.ops[k].wait = false;
+            c.smax = c.smax.max(c.ops[k].len + 64);
+            c.rmax = c.smax;
+            c.rcancel = None;
+            stat(stats, "slow_deserializer");
+        }
     }
     c
 }
@@ -1411,6 +1480,23 @@ op 0 tag=2 len=60 serfail=40
 op 0 tag=3 len=7
 op 0 tag=4 len=50
 op 0 tag=5 len=2
+end
+# slow deserializer: recv is cancelled while it waits for space in the queue towards the deserializer thread of a
+# streamed item of more than 32 chunks, then called again; the item and its neighbours must arrive intact
+case fixed-slow-deserializer kind=base cfga=10,16,24 cfgb=10,16,24 smax=2000 rmax=2000 seed=13
+op 0 tag=1 len=5
+op 0 tag=2 len=700 gate=1
+op 0 tag=3 len=7
+op 0 tag=4 len=60
+end
+case fixed-slow-deserializer-lr kind=lr cfga=16,64,40 cfgb=16,64,40 smax=4000 rmax=4000 seed=14
+op 0 tag=1 len=900 gate=1
+op 0 tag=2 len=3
+end
+case fixed-slow-deserializer-mpsc kind=mpsc senders=r cfga=10,33,24 cfgb=10,33,24 smax=2000 rmax=2000 seed=15
+op 0 tag=1 len=9
+op 0 tag=2 len=640 gate=1
+op 0 tag=3 len=50
 end
 # streamed item cancelled by the caller mid-stream, followed by further items
 case fixed-f1-cancel kind=base cfga=10,16,24 cfgb=10,16,24 smax=120 rmax=120 seed=12
